@@ -1,4 +1,5 @@
 import ComposeVerif.Lemmas.IncludeRel
+import ComposeVerif.Lemmas.PathsOrigin
 /-!
 # C06 — `Join(L, Rel(L, X)) = Clean(X)`
 
@@ -100,5 +101,75 @@ theorem join_rel_abs (L X r : String) (hL : Include.isAbs L = true) (hX : Includ
 /-- non-vacuity: `/r/proj` and `/r/shared/x` -/
 example : Include.rel "/r/proj" "/r/shared/x" = some "../shared/x" ∧
     Include.join "/r/proj" "../shared/x" = "/r/shared/x" := by decide +kernel
+
+/-- **`filepath.Rel` between absolute paths never fails and answers a non-empty relative path** (the ported `relC`) -/
+theorem relC_abs_total (L X : Str) (hL : Paths.isAbs L = true) (hX : Paths.isAbs X = true) :
+    ∃ r, relC L X = some r ∧ r ≠ [] ∧ Paths.isAbs r = false := by
+  have hvL : Valid true (cleanStack L) := by have := cleanStack_valid L; rwa [hL] at this
+  have hvX : Valid true (cleanStack X) := by have := cleanStack_valid X; rwa [hX] at this
+  have hnL := valid_rooted_norm hvL
+  have hnX := valid_rooted_norm hvX
+  have hsX := cleanStack_noSlash X
+  have hdot : dot ≠ [] ∧ Paths.isAbs dot = false := by decide
+  unfold relC
+  simp only
+  split
+  · exact ⟨dot, rfl, hdot.1, hdot.2⟩
+  · have hab : ¬ (Paths.isAbs (Paths.clean L) ≠ Paths.isAbs (Paths.clean X)) := by
+      rw [isAbs_clean, isAbs_clean, hL, hX]; simp
+    simp only [hab, if_false]
+    rw [relSegs_clean_abs L hL]
+    have htd : Paths.clean X ≠ dot := by
+      intro e
+      have := isAbs_clean X
+      rw [e, hX] at this
+      revert this; decide
+    simp only [htd, if_false]
+    rw [relSegs_clean_abs X hX]
+    obtain ⟨c, h1, h2⟩ := stripCommon_spec (cleanStack L).reverse (cleanStack X).reverse
+    generalize (stripCommon (cleanStack L).reverse (cleanStack X).reverse) = st at h1 h2
+    obtain ⟨br, tr⟩ := st
+    simp only at h1 h2 ⊢
+    have hbrN : ∀ x ∈ br, Norm x := fun x hx =>
+      hnL x (List.mem_reverse.mp (by rw [h1]; simp [hx]))
+    have htrN : ∀ x ∈ tr, Norm x := fun x hx =>
+      hnX x (List.mem_reverse.mp (by rw [h2]; simp [hx]))
+    have htrS : ∀ x ∈ tr, '/' ∉ x := fun x hx =>
+      hsX x (List.mem_reverse.mp (by rw [h2]; simp [hx]))
+    have hhead : ¬ br.head? = some dotdot := by
+      intro e
+      cases br with
+      | nil => simp at e
+      | cons a b =>
+        simp only [List.head?_cons, Option.some.injEq] at e
+        exact (hbrN a (by simp)).2.2 e
+    simp only [hhead, if_false]
+    cases hout : (br.map (fun _ => dotdot) ++ tr).isEmpty with
+    | true => exact ⟨dot, by simp, hdot.1, hdot.2⟩
+    | false =>
+      have hne' : br.map (fun _ => dotdot) ++ tr ≠ [] := by
+        intro e; rw [e] at hout; simp at hout
+      have hp : ∀ x ∈ br.map (fun _ => dotdot) ++ tr, x ≠ [] := by
+        intro x hx
+        rcases List.mem_append.mp hx with hx | hx
+        · obtain ⟨_, _, rfl⟩ := List.mem_map.mp hx; decide
+        · exact (htrN x hx).1
+      have hs : ∀ x ∈ br.map (fun _ => dotdot) ++ tr, '/' ∉ x := by
+        intro x hx
+        rcases List.mem_append.mp hx with hx | hx
+        · obtain ⟨_, _, rfl⟩ := List.mem_map.mp hx; exact norm_noSlash_dotdot
+        · exact htrS x hx
+      obtain ⟨g1, g2⟩ := joinSlash_rel_head _ hne' hp hs
+      exact ⟨_, by simp, g1, g2⟩
+
+/-- the same on the `String` wrappers -/
+theorem rel_abs_total (L X : String) (hL : Include.isAbs L = true) (hX : Include.isAbs X = true) :
+    ∃ r, Include.rel L X = some r ∧ r ≠ "" ∧ Include.isAbs r = false := by
+  obtain ⟨r, h, hne, hr⟩ := relC_abs_total L.toList X.toList hL hX
+  refine ⟨String.ofList r, by simp [Include.rel, h], ?_, by simpa [Include.isAbs] using hr⟩
+  intro e
+  apply hne
+  have := congrArg String.toList e
+  simpa using this
 
 end CV.Include
